@@ -165,12 +165,12 @@ func genC02(maxOps int) func(t *rapid.T) pktsim.History {
 			mainLink = 1
 		}
 		mainDir := rapid.IntRange(0, 1).Draw(t, "mainDir")
-		kinds := []string{"send", "send", "send", "send", "recv", "recv", "recvnext", "recvnext", "recvnext", "recvnext", "recvnext", "ack", "acknext", "acknext", "acknext", "acknext", "replay", "dupterm", "update", "block", "timeout"}
+		kinds := []string{"recvnext", "recvnext", "recvnext", "acknext", "acknext", "acknext", "send", "send", "send", "recvnext", "acknext", "recv", "recv", "ack", "replay", "dupterm", "update", "block", "timeout"}
 		n := rapid.IntRange(8, maxOps).Draw(t, "nops")
 		sends := 0
 		for i := 0; i < n; i++ {
 			k := rapid.SampledFrom(kinds).Draw(t, "kind")
-			if sends < 2 && k != "block" && k != "update" {
+			if sends < 3 && k != "block" && k != "update" {
 				k = "send"
 			}
 			if k == "timeout" && rapid.IntRange(0, 2).Draw(t, "rareTimeout") != 0 {
@@ -199,8 +199,8 @@ func genC02(maxOps int) func(t *rapid.T) pktsim.History {
 					op.D = rapid.IntRange(0, 1).Draw(t, "dir")
 				}
 				// N = 0: the in-order packet; N >= 1: skip ahead by N
-				if rapid.IntRange(0, 9).Draw(t, "skip") < 4 {
-					op.N = rapid.IntRange(1, 3).Draw(t, "ahead")
+				if a := rapid.IntRange(0, 5).Draw(t, "ahead"); a > 2 {
+					op.N = a - 2
 				}
 				op.P = rapid.IntRange(0, sends-1).Draw(t, "pkt")
 				op.H = genSel(t, 85)
